@@ -19,6 +19,7 @@ var WPlusKinds = []string{
 	"pointer-to-nested-inline",
 	"pointer-nested-in-target",
 	"pointer-cycle",
+	"pointer-cycle-through-items",
 	"self-pointer",
 	"colliding-import-with-refs",
 	"ref-in-simple-items",
@@ -118,6 +119,15 @@ func GenWPlusCase(d *D, cfg BundleCfg, allowed []string) *WPlusCase {
 			defs["cycA"] = O{"type": "object", "properties": O{"x": O{"$ref": "#/definitions/cycB/properties/y"}}}
 			defs["cycB"] = O{"type": "object", "properties": O{"y": O{"$ref": "#/definitions/cycA/properties/x"}}}
 			holderPath(root, i, O{"$ref": "#/definitions/cycA"})
+		case "pointer-cycle-through-items":
+			// a cycle made only of pointers to items / additionalProperties positions
+			defs := ensureDefs(root)
+			defs["cyI"] = O{"type": "array", "items": O{"$ref": "#/definitions/cyM/additionalProperties"}}
+			defs["cyM"] = O{"type": "object", "additionalProperties": O{"$ref": "#/definitions/cyI/items"}}
+			if d.Bool() {
+				defs["cyT"] = O{"type": "array", "items": A{O{"$ref": "#/definitions/cyT/items/0"}}}
+			}
+			holderPath(root, i, O{"$ref": "#/definitions/cyI"})
 		case "self-pointer":
 			defs := ensureDefs(root)
 			defs["selfP"] = O{"type": "object", "properties": O{"me": O{"$ref": "#/definitions/selfP/properties/me"}}}
